@@ -281,7 +281,8 @@ func cmdCheck(args []string) int {
 		}
 		viols = append(viols, violation{Obligation: oc.O.Name(), Detail: oc.Res.Status})
 	}
-	// thorough: extra seeds (brittleness) — failures here are reported as machinery warnings, then as violations
+	// thorough: extra seeds (brittleness). A refutation under another seed is a violation; a timeout is a note.
+	seedSensitive = nil
 	if *tier == "thorough" && len(viols) == 0 && !machinery {
 		for _, s2 := range []int{seed + 1, seed + 2} {
 			var obls []*Obligation
@@ -290,9 +291,17 @@ func cmdCheck(args []string) int {
 			}
 			for _, oc := range SolveAll(obls, wd, timeoutS, s2, 10, false) {
 				secs += oc.Res.Seconds
-				if !oc.OK {
-					viols = append(viols, violation{Obligation: oc.O.Name(), Detail: fmt.Sprintf("%s under solver seed %d", oc.Res.Status, s2)})
+				if oc.OK {
+					continue
 				}
+				if oc.Res.Status == "sat" && oc.O.Expect != "sat" {
+					// a refutation under another seed contradicts the proof: that is a verdict
+					viols = append(viols, violation{Obligation: oc.O.Name(), Detail: fmt.Sprintf("%s under solver seed %d", oc.Res.Status, s2)})
+					continue
+				}
+				// decided with the first seed, undecided with this one: the obligation stays discharged, the instability is noted
+				seedSensitive = append(seedSensitive, fmt.Sprintf("%s: %s under solver seed %d", oc.O.Name(), oc.Res.Status, s2))
+				fmt.Printf("note: %s is seed-sensitive (%s under solver seed %d); it was decided with the first seed\n", oc.O.Name(), oc.Res.Status, s2)
 			}
 		}
 	}
@@ -496,6 +505,9 @@ func reportLoadFailure(prop, tier string, seed int, err error, start time.Time) 
 	return 2
 }
 
+// seedSensitive: obligations decided with the first seed and undecided with another one (thorough tier)
+var seedSensitive []string
+
 func writeEvidence(pr *PropertyRun, prop, tier string, seed, discharged, nviol int, solverSecs, wall float64, standins []map[string]any, kfs []KnownFinding) {
 	var per []map[string]any
 	backends := map[string]int{}
@@ -566,6 +578,7 @@ func writeEvidence(pr *PropertyRun, prop, tier string, seed, discharged, nviol i
 			"samples":                  samples,
 			"unclaimed":                uncl,
 			"bounded_standins":         standins,
+			"seed_sensitive":           seedSensitive,
 			"known_findings":           known,
 			"translation_errors":       pr.FnErrors,
 		},
